@@ -157,8 +157,14 @@ func mModel() mNode {
 		}
 		return root
 	case 4: // a user comment after the note is part of the text in BOTH layouts
-		return mNode{kind: schema.TokenTypeNumber, valText: d, valWant: d,
-			rules: []mRule{{"min", "3", mNum(schema.TokenTypeNumber, "3")}}, note: "note " + sc, userComment: " # c" + sc}
+		root := mNode{kind: schema.TokenTypeObject}
+		root.children = []mNode{
+			{kind: schema.TokenTypeNumber, key: "a", valText: d, valWant: d,
+				rules: []mRule{{"min", "3", mNum(schema.TokenTypeNumber, "3")}}, note: "note " + sc, userComment: " # c" + sc},
+			{kind: schema.TokenTypeNumber, key: "b", valText: d, valWant: d, note: "plain note", userComment: " # d"},
+			{kind: schema.TokenTypeString, key: "c", valText: `"` + sc + `"`, valWant: sc},
+		}
+		return root
 	case 5: // an array-valued member followed by `, # comment`, then an annotated member
 		root := mNode{kind: schema.TokenTypeObject}
 		root.children = []mNode{
